@@ -103,6 +103,8 @@ def _assert_no_comment_openers(lexemes):
             raise AssertionError("generator emitted a comment opener inside lexeme %r" % lx)
 
 
+KEYWORDS_NOT_TYPES = {"class", "namespace", "template", "typedef", "virtual", "static", "const", "enum", "struct",
+                      "operator", "return", "This"}
 LATE_KINDS = [("drop-default", 3), ("rename-typedef-target", 1)]
 
 
@@ -136,6 +138,21 @@ def corrupt(lexemes, starts, tape, n, late=False):
             # a stray qualifier token next to a type: after a closing '>' or before an identifier
             idx = [k for k, t in enumerate(lex) if t == ">" or t == "typedef"]
             q = tape.pick(["*", "&", "@", "const"], "qualifier")
+            if tape.bool(0.5, "qualifier-after-type-name"):
+                # between a type name and what follows it in a declaration: its `&` / `*` / `@` marker, or the
+                # declared name (`T const& x`, `const T const& x`, `T const f()`, `T* * x`)
+                isid = lambda t: t.replace("_", "a").replace("::", "a").isalnum() and not t[0].isdigit()
+                after = [k for k in range(len(lex) - 2)
+                         if isid(lex[k]) and lex[k] not in KEYWORDS_NOT_TYPES and
+                         (lex[k + 1] in ("&", "*", "@") or
+                          (isid(lex[k + 1]) and lex[k + 1] not in KEYWORDS_NOT_TYPES and
+                           lex[k + 2] in (",", ")", "(", "=", ";")))]
+                if after:
+                    k = after[tape.choose(len(after), "which-type-name")]
+                    lex.insert(k + 1, q)
+                    kinds.append("stray-qualifier:after-type-name")
+                    pristine[0] = False
+                    continue
             if idx:
                 k = idx[tape.choose(len(idx), "which-type")]
                 lex.insert(k + 1 if (lex[k] == "typedef" or q != "const") else k, q)
